@@ -4,11 +4,34 @@ import EmmyVerif.Lemmas.Perm
 namespace Export
 open PermModel PermLemmas
 
-theorem typeLe_trans : ∀ a b c : TypeDecl, typeLe a b = true → typeLe b c = true → typeLe a c = true := by
-  intro a b c h1 h2; unfold typeLe at *; simp only [decide_eq_true_eq] at *; exact Nat.le_trans h1 h2
+theorem lexLe4_iff (a b : Nat × Nat × Nat × Nat) :
+    lexLe4 a b = true ↔ (a.1 < b.1 ∨ (a.1 = b.1 ∧ (a.2.1 < b.2.1 ∨ (a.2.1 = b.2.1 ∧
+      (a.2.2.1 < b.2.2.1 ∨ (a.2.2.1 = b.2.2.1 ∧ a.2.2.2 ≤ b.2.2.2)))))) := by
+  unfold lexLe4; simp
 
-theorem typeLe_total : ∀ a b : TypeDecl, (typeLe a b || typeLe b a) = true := by
-  intro a b; unfold typeLe; simp only [Bool.or_eq_true, decide_eq_true_eq]; exact Nat.le_total _ _
+theorem lexLe4_trans (a b c : Nat × Nat × Nat × Nat) (h1 : lexLe4 a b = true) (h2 : lexLe4 b c = true) :
+    lexLe4 a c = true := by
+  rw [lexLe4_iff] at *; omega
+
+theorem lexLe4_total (a b : Nat × Nat × Nat × Nat) : (lexLe4 a b || lexLe4 b a) = true := by
+  rw [Bool.or_eq_true, lexLe4_iff, lexLe4_iff]; omega
+
+theorem lexLe4_antisymm (a b : Nat × Nat × Nat × Nat) (h1 : lexLe4 a b = true) (h2 : lexLe4 b a = true) : a = b := by
+  rw [lexLe4_iff] at *
+  obtain ⟨a1, a2, a3, a4⟩ := a
+  obtain ⟨b1, b2, b3, b4⟩ := b
+  simp only at h1 h2
+  have e1 : a1 = b1 := by omega
+  have e2 : a2 = b2 := by omega
+  have e3 : a3 = b3 := by omega
+  have e4 : a4 = b4 := by omega
+  subst e1 e2 e3 e4; rfl
+
+theorem typeLe_trans : ∀ a b c : TypeDecl, typeLe a b = true → typeLe b c = true → typeLe a c = true :=
+  fun a b c => lexLe4_trans a.key b.key c.key
+
+theorem typeLe_total : ∀ a b : TypeDecl, (typeLe a b || typeLe b a) = true :=
+  fun a b => lexLe4_total a.key b.key
 
 theorem moduleLe_iff (a b : ModuleInfo) :
     moduleLe a b = true ↔ (a.name < b.name ∨ (a.name = b.name ∧ a.file ≤ b.file)) := by
